@@ -26,7 +26,8 @@ tvars == <<vars, l, acc>>
 FsOf(e) ==
     [dents |-> {<<d[1], d[2], d[3]>> : d \in ToSetL(e.dents)},
      kind  |-> [i \in Ids |-> IF \E x \in ToSetL(e.inodes) : x[1] = i THEN (CHOOSE x \in ToSetL(e.inodes) : x[1] = i)[2] ELSE "free"],
-     body  |-> [i \in Ids |-> IF \E x \in ToSetL(e.inodes) : x[1] = i THEN (CHOOSE x \in ToSetL(e.inodes) : x[1] = i)[3] ELSE <<>>]]
+     body  |-> [i \in Ids |-> IF \E x \in ToSetL(e.inodes) : x[1] = i THEN (CHOOSE x \in ToSetL(e.inodes) : x[1] = i)[3] ELSE <<>>],
+     nox   |-> ToSetL(e.denied)]        \* directories the recorded caller may not search
 
 TraceInit ==
     /\ l = 1 /\ acc = <<>>
@@ -64,9 +65,14 @@ T_Att ==
     /\ everIn' = everIn \cup InRootSet(fs')
     /\ UNCHANGED <<path, op, pc, cur, exp, rem, ntrav, nxt, part, rootPath, retries, res, backend>> /\ Keep
 \* silent model steps
+\* (the classification of trailing slashes is not silent: it is the fstat of what has been reached)
 Silent ==
-    /\ (E_Start \/ E_Classify \/ E_Budget \/ E_Done)
+    /\ (E_Start \/ E_ClassifyStep \/ E_Budget \/ E_Done)
     /\ UNCHANGED <<fs, tree, path, op, backend, natk, nsteps, everIn, l, acc>>
+T_Trail ==
+    /\ l <= Len(Rec) /\ E.ev = "sys" /\ E.nr = "fstat" /\ pc = "loop" /\ E.d1 = cur /\ Consume
+    /\ E_ClassifyTrail
+    /\ UNCHANGED <<fs, path, op, everIn, backend>> /\ Keep
 \* kernel backend: one openat2 per attempt with the caller's path; EAGAIN (a racing rename, or injected) is
 \* retried, the KRetry-th EAGAIN in a row ends the call with a safety violation
 T_KOpen ==
@@ -125,7 +131,7 @@ T_Skip ==
     /\ l <= Len(Rec) /\ E.ev \in {"snap"} /\ pc = "idle" /\ Consume
     /\ UNCHANGED vars /\ UNCHANGED acc
 
-TraceNext == T_Init \/ T_Begin \/ T_Att \/ Silent \/ T_KOpen \/ T_Open \/ T_Stat \/ T_MayFollow \/ T_Readlink \/ T_DPath \/ T_Post \/ T_End \/ T_Skip
+TraceNext == T_Init \/ T_Begin \/ T_Att \/ Silent \/ T_Trail \/ T_KOpen \/ T_Open \/ T_Stat \/ T_MayFollow \/ T_Readlink \/ T_DPath \/ T_Post \/ T_End \/ T_Skip
 TraceSpec == TraceInit /\ [][TraceNext]_tvars
 
 Progress == TLCSet(1, IF TLCGet(1) > l THEN TLCGet(1) ELSE l)
